@@ -36,7 +36,7 @@ fn at<T>(r: &T) -> usize {
     r as *const T as usize
 }
 
-//@ prop=C45 tier=quick kind=hold
+//@ prop=C45 tier=experimental kind=hold
 //@ enc=Glv::insert_market, Market::validated_meta, Market::validate_with_options, GlvMarkets::insert_with_options, Glv::{contains, num_markets}
 //@ bound=an empty GLV with arbitrary long/short tokens (one symbolic byte each, so equal and different tokens both occur) and an otherwise zero market whose store, mints, enabled and closed flags are arbitrary; unwind 34 (32-byte key compares)
 //@ stubs=alloc::fmt::format, sol_log, CoreError::name/Display empty (error texts are not the subject)
